@@ -49,6 +49,8 @@ class PWM(PoupoolActor):
         # Clear the security duration counter and last time during a pause
         self.__security_duration.clear()
         self.__last = None
+        self.__duration = 0
+        self.__state = False
         self.__pump.off()
 
     def do_run(self):
